@@ -312,6 +312,8 @@ def confirm_by_playback(shard, prop, h, d, rest, logdir):
     os.makedirs(os.path.join(EVID, 'replay'), exist_ok=True)
     path = os.path.join(EVID, 'replay', '%s-%s.json' % (prop, h.name))
     rp['path'] = path
+    if not h.playback:
+        return confirm_by_second_solver(shard, prop, h, d, rest, logdir, rp, path)
     try:
         vk.sync_overlay(shard, with_requires(h.mod))
         log = vk.run_kani(shard, h.mod.crate, [h], os.path.join(logdir, 'playback'), jobs=1, playback=True)
@@ -342,6 +344,54 @@ def with_requires(mod):
     byname = {m.module: m for m in vk.load_modules()}
     return [mod] + [byname[r] for r in mod.requires]
 
+def confirm_by_second_solver(shard, prop, h, d, rest, logdir, rp, path):
+    """Harnesses that stub repository code or use a partially initialised context cannot be replayed natively
+    (Kani does not apply stubs to playback tests).  Their counterexamples are confirmed by deciding the same
+    harness again, alone, with a different SAT solver (Kissat instead of CaDiCaL): the violation is reported
+    only if the same check fails again."""
+    rp['confirmation'] = 'second solver (kissat)'
+    try:
+        vk.sync_overlay(shard, with_requires(h.mod))
+        out_json = os.path.join(logdir, 'confirm-%s.json' % h.name)
+        if os.path.exists(out_json):
+            os.remove(out_json)
+        vk.run_kani(shard, h.mod.crate, [h], os.path.join(logdir, 'confirm'), jobs=2, playback=False,
+                    extra_args=['--output-format=terse', '--export-json', out_json, '--solver', 'kissat'])
+        j = json.load(open(out_json))
+        again = []
+        for r in j['verification_results']['results']:
+            for c in r.get('checks') or []:
+                if c.get('status') == 'Failure':
+                    again.append(c.get('description'))
+        want = {f['description'] for f in rest}
+        rp['second_solver_failed_checks'] = sorted(set(again))
+        rp['reproduced'] = bool(want & set(again))
+        if not rp['reproduced']:
+            rp['why'] = 'the second solver did not fail the same check'
+    except Exception as e:
+        rp['why'] = 'confirmation run failed: %r' % (e,)
+    json.dump(rp, open(path, 'w'), indent=1)
+    return rp
+
+def rerun_under_kani(prop, rp):
+    mods = {m.module: m for m in vk.load_modules()}
+    h = [x for x in mods[rp['module']].harnesses if x.name == rp['harness']][0]
+    shard = vk.acquire_shards(1)[0]
+    try:
+        vk.sync_overlay(shard, with_requires(h.mod))
+        out_json = os.path.join(LOGS, 'replay-%s.json' % h.name)
+        os.makedirs(LOGS, exist_ok=True)
+        if os.path.exists(out_json):
+            os.remove(out_json)
+        vk.run_kani(shard, h.mod.crate, [h], os.path.join(LOGS, 'replay'), jobs=2, playback=False,
+                    extra_args=['--output-format=terse', '--export-json', out_json])
+        j = json.load(open(out_json))
+        failed = [c.get('description') for r in j['verification_results']['results'] for c in (r.get('checks') or []) if c.get('status') == 'Failure']
+    finally:
+        shard.release()
+    want = {f['description'] for f in rp.get('failed_checks', [])}
+    return bool(want & set(failed)), failed
+
 def run_playback(shard, h, test_src):
     name = re.search(r'fn (kani_concrete_playback_\w+)', test_src).group(1)
     vk.sync_overlay(shard, with_requires(h.mod), extra_tests={h.mod.module: test_src})
@@ -355,6 +405,14 @@ def run_playback(shard, h, test_src):
 
 def replay(prop, path):
     rp = json.load(open(path))
+    if 'test' not in rp:
+        ok, failed = rerun_under_kani(prop, rp)
+        say('replay (solver re-run of %s): failed checks now: %s' % (rp['harness'], failed[:5]))
+        if ok:
+            say('VIOLATION property=%s replay=%s' % (prop, path))
+            return 1
+        say('replay: the recorded violation does not occur on the current tree')
+        return 0
     mods = {m.module: m for m in vk.load_modules()}
     m = mods[rp['module']]
     h = [x for x in m.harnesses if x.name == rp['harness']][0]
